@@ -134,3 +134,158 @@ class mem_resources:
 
 BASE = 'http://m/d/'
 MAIN = BASE + 'main.conf'
+
+
+# ---------------------------------------------------------------------- generic text harness
+def _no_nl(c, i):
+    return z3.And(c != 10, c != 13)
+
+
+def name_pred(c, i):
+    """substitution-name-ish tokens: [A-Za-z0-9_-]"""
+    return z3.Or(z3.And(c >= 48, c <= 57), z3.And(c >= 65, c <= 90), z3.And(c >= 97, c <= 122),
+                 c == 95, c == 45)
+
+
+def dvalue_pred(c, i):
+    """printable ASCII including '$'"""
+    return z3.And(c >= 33, c <= 126)
+
+
+def ws_pred(c, i):
+    """horizontal whitespace characters of domain D (no line terminators)"""
+    return z3.Or(c == 32, c == 9, c == 0xA0, c == 0x2003, c == 0x3000, c == 12, c == 0x1c)
+
+
+HOLE_PREDS = {'w': word_pred, 'v': value_pred, 'x': _no_nl, 'n': name_pred, 'd': dvalue_pred,
+              's': ws_pred, 'N': name1_pred}
+
+
+def join_rel(base, rel):
+    parts = (base + rel).split('/')
+    out = []
+    for p in parts:
+        if p == '..':
+            if out:
+                out.pop()
+        elif p not in ('.', ''):
+            out.append(p)
+    return '/'.join(out)
+
+
+class TextMixin:
+    """Units carry 'files': [[name, [line, ...]], ...] (first = top resource).  A line is a
+    literal str or a list of parts: literal str, [cls, n] hole (cls in HOLE_PREDS), or
+    ['ref', line, part] re-using a hole of the same file, or ['REF', file, line, part]."""
+
+    def text_inputs(self, eng, unit, files_key='files'):
+        out = {}
+        for fi, (name, lines) in enumerate(unit[files_key]):
+            for li, line in enumerate(lines):
+                if isinstance(line, str):
+                    continue
+                for pi, part in enumerate(line):
+                    if isinstance(part, (list, tuple)) and part[0] in HOLE_PREDS:
+                        nm = 'f%dl%dp%d' % (fi, li, pi)
+                        out[nm] = self.sym_str(eng, nm, part[1], HOLE_PREDS[part[0]])
+        return out
+
+    def text_files(self, unit, inp, files_key='files'):
+        res = []
+        for fi, (name, lines) in enumerate(unit[files_key]):
+            out = []
+            for li, line in enumerate(lines):
+                if isinstance(line, str):
+                    out.append(line)
+                    continue
+                s = ''
+                for pi, part in enumerate(line):
+                    if isinstance(part, str):
+                        s = s + part
+                    elif part[0] == 'ref':
+                        s = s + inp['f%dl%dp%d' % (fi, part[1], part[2])]
+                    elif part[0] == 'REF':
+                        s = s + inp['f%dl%dp%d' % (part[1], part[2], part[3])]
+                    else:
+                        s = s + inp['f%dl%dp%d' % (fi, li, pi)]
+                out.append(s)
+            res.append((name, out))
+        return res
+
+    @staticmethod
+    def flatten(files):
+        """textual inlining of literal '%include <rel>' lines -> [(url, local lineno, line)]"""
+        d = dict(files)
+        flat = []
+
+        def rec(name, depth):
+            if depth > 8:
+                raise RuntimeError('include cycle in a harness layout')
+            base = name.rsplit('/', 1)[0] + '/' if '/' in name else ''
+            for i, line in enumerate(d[name]):
+                if isinstance(line, str) and line.strip().startswith('%include '):
+                    rel = line.strip()[len('%include '):].strip()
+                    rec(join_rel(base, rel), depth + 1)
+                else:
+                    flat.append((BASE + name, i + 1, line))
+        rec(files[0][0], 0)
+        return flat
+
+    def real_load(self, xml, files, inp_concrete, overrides=(), schema=None):
+        """-> ('ok', cfg, handler) | ('reject', cls, exc) | ('crash', cls, exc)"""
+        store = {BASE + n: ls for n, ls in files}
+        with common.env_scope(inp_concrete, {}), mem_resources(store):
+            return run_load(xml, files[0][1], overrides=overrides, url=BASE + files[0][0])
+
+
+def describe_reject(e):
+    """exception -> (family, lineno, url, extra)"""
+    import ZConfig
+    fam = 'config'
+    extra = None
+    if isinstance(e, ZConfig.DataConversionError):
+        fam = 'conversion'
+        extra = (e.value, isinstance(e.exception, ValueError))
+    elif isinstance(e, ZConfig.SubstitutionSyntaxError):
+        fam = 'subst-syntax'
+    elif isinstance(e, ZConfig.ConfigurationSyntaxError):
+        fam = 'syntax'
+    return (fam, getattr(e, 'lineno', None), getattr(e, 'url', None), extra)
+
+
+def oracle_load(view, flat, want_pos=False):
+    """reference outcome for a flattened text:
+       ('ok', tree) | ('any',) | ('reject', family, lineno, url, extra)
+       family: syntax | subst-syntax | either | conversion | config | unplaced"""
+    from ..oracles import linegrammar as G, conformance as CF
+    lines = [x[2] for x in flat]
+    g = G.parse(lines, 'record', want_lines=True)
+    if g[0] != 'ok':
+        r = CF.evaluate(view, g[2], g[3], partial=True)
+        if r[0] == 'any':
+            return ('any',)
+        if r[0] == 'ok':
+            url, ln, _ = flat[g[1] - 1]
+            return ('reject', g[0], ln, url, None)
+    else:
+        r = CF.evaluate(view, g[1], g[3])
+    if r[0] != 'reject':
+        return r
+    if r[1] is None:
+        return ('reject', 'unplaced', None, None, None)
+    url, ln, _ = flat[r[1] - 1]
+    return ('reject', 'conversion' if r[2] == 'conversion' else 'config', ln, url,
+            (r[3], True) if r[2] == 'conversion' else None)
+
+
+def family_agree(real_fam, exp_fam):
+    """error-class family demanded by the oracle vs observed"""
+    if exp_fam in ('either',):
+        return real_fam in ('syntax', 'subst-syntax')
+    if exp_fam == 'unplaced':
+        return True
+    if exp_fam == 'config':
+        # matcher-level faults reach the user as ConfigurationError or, when raised while a
+        # line is being read, re-wrapped as ConfigurationSyntaxError
+        return real_fam in ('config', 'syntax')
+    return real_fam == exp_fam
